@@ -142,35 +142,40 @@ def get_atomic_sequence(xsd_type: Optional[XsdTypeProtocol],
     elif text is None:
         yield from iter_atomic_values(xsd_type)
     else:
-        error: Union[None, ValueError, ArithmeticError] = None
-        code = 'FORG0001'
-
-        for value in iter_atomic_values(xsd_type):
-            try:
-                if xsd_type.is_list():
-                    for item in text.split():
-                        yield decode(item)
-                else:
-                    yield decode(text)
-            except (ArithmeticError, ValueError) as err:
-                if error is None:
-                    error = err
-                    if isinstance(err, ArithmeticError):
-                        if isinstance(value, dt.AbstractDateTime):
-                            code = 'FODT0001'
-                        elif isinstance(value, dt.Duration):
-                            code = 'FODT0002'
-                        else:
-                            code = 'FOCA0002'
-            else:
-                return
-        else:
-            if error is not None:
-                raise xpath_error(code, error, namespaces=namespaces)
-            elif hasattr(xsd_type, 'decode'):
+        error: Union[None, ValueError, ArithmeticError]
+        prototypes = list(iter_atomic_values(xsd_type))
+        if not prototypes:
+            if hasattr(xsd_type, 'decode'):
                 yield xsd_type.decode(text or '')
             else:
                 yield dt.UntypedAtomic(text if isinstance(text, str) else '')
+            return
+
+        # Each item of a list is decoded on its own: the items of a list of
+        # unions can belong to different member types.
+        results = []
+        for item in (text.split() if xsd_type.is_list() else [text]):
+            error = None
+            code = 'FORG0001'
+            for value in prototypes:
+                try:
+                    results.append(decode(item))
+                except (ArithmeticError, ValueError) as err:
+                    if error is None:
+                        error = err
+                        if isinstance(err, ArithmeticError):
+                            if isinstance(value, dt.AbstractDateTime):
+                                code = 'FODT0001'
+                            elif isinstance(value, dt.Duration):
+                                code = 'FODT0002'
+                            else:
+                                code = 'FOCA0002'
+                else:
+                    break
+            else:
+                raise xpath_error(code, error, namespaces=namespaces)
+
+        yield from results
 
 
 __all__ = ['get_atomic_sequence']
